@@ -399,6 +399,22 @@ def run(tier, seed, jobs, deadline, report):
                                                                                            "meta": {"family": "two-concurrent-first-imports"}},
                                             "expected": "both imports succeed with the reference table; cache complete, nothing left behind",
                                             "observed": first["problem"], "detail": {"interleaving": first["ops"], "schedules_with_this_outcome": len(bs)}}]})
+    # faults during the recovery's own write: each write cut short (not an error: a raw file may take fewer bytes) or failing with ENOSPC
+    wf = write_faults([("missing", {}), ("truncated", {CACHE: complete[:N // 2]}), ("empty", {CACHE: b""})], jobs, ref)
+    if wf["faults_reached"] < 6:
+        raise InfraError("write-fault injection reached only %d writes: the hooks no longer see the cache write" % wf["faults_reached"])
+    wgroups = {}
+    for b in wf["bad"]:
+        wgroups.setdefault((b["kind"], b["problem"]["stage"], b["problem"]["problem"]), []).append(b)
+    for (kind, stage, prob), bs in wgroups.items():
+        first = min(bs, key=lambda b: b["k"])
+        report.add_violation({"cls": {"family": "fault-during-the-recovery-write", "fault": kind, "stage": stage, "problem": prob},
+                              "count": len(bs),
+                              "examples": [{"sub": "fault-during-the-recovery-write",
+                                            "case": {"label": "write-fault", "initial": first["initial"], "k": first["k"], "kind": kind,
+                                                     "meta": {"family": "fault-during-the-recovery-write"}},
+                                            "expected": "short write: import succeeds and the cache is complete; ENOSPC: a later import repairs the cache",
+                                            "observed": first["problem"], "detail": {"write_index": first["k"], "initial": first["initial"]}}]})
     # representative states as true subprocess imports of the whole package
     sub_n = 0
     for label, files in [("missing", {}), ("empty", {CACHE: b""}), ("prefix:1", {CACHE: complete[:1]}),
@@ -411,14 +427,16 @@ def run(tier, seed, jobs, deadline, report):
                                   "expected": "python -c 'import dateparser' exits 0 twice; cache complete afterwards",
                                   "observed": v, "detail": {"label": label}},
                                  case={"label": "subprocess:" + label, "meta": {"family": "subprocess-import"}}, sub="subprocess-import")
-    report.evaluations = done + conc + sub_n + two["schedules"]
-    report.nontrivial = nontriv + conc + sub_n + two["schedules"]
+    report.evaluations = done + conc + sub_n + two["schedules"] + wf["faults_reached"]
+    report.nontrivial = nontriv + conc + sub_n + two["schedules"] + wf["faults_reached"]
     report.samples = [{"label": l, "meta": m, "file_sizes": {k: len(v) for k, v in f.items()}} for (l, f, m) in tl[:6]]
     report.subspaces = [{"name": k, "size": v, "executed": v, "complete": True} for k, v in sorted(fams.items())] + [
         {"name": "concurrent-first-import", "size": conc, "executed": conc, "complete": True},
         {"name": "subprocess-import", "size": sub_n, "executed": sub_n, "complete": True},
+        {"name": "fault-during-the-recovery-write", "size": wf["faults_reached"], "executed": wf["faults_reached"], "complete": True},
         {"name": "two-concurrent-first-imports (preemption bound %d)" % bound, "size": two["schedules"], "executed": two["schedules"], "complete": two["complete"]}]
-    report.extra.update({"two_importers": {"preemption_bound": bound, "schedules": two["schedules"], "per_initial_state": two["per_initial"],
+    report.extra.update({"write_faults": {"executions": wf["executions"], "faults_reached": wf["faults_reached"], "outcomes": wf["outcomes"]},
+                         "two_importers": {"preemption_bound": bound, "schedules": two["schedules"], "per_initial_state": two["per_initial"],
                                            "max_scheduling_points": two["max_points"], "outcomes": two["outcomes"]},
                          "crash_states": done, "cache_bytes": N, "shipped_cache_bytes": len(shipped) if shipped else None,
                          "syscall_trace": [list(o) for o in ops], "pickle_frame_offsets": bounds,
@@ -484,6 +502,117 @@ def concurrent_case(ops, contents, i):
 
 
 # ----------------------------------------------------------------------------- two real importers, all interleavings within a bound
+def _write_fault_child(initial_files, k, kind):
+    """One importer whose k-th write is cut short or fails with ENOSPC (runs in a forked child); then a fault-free import."""
+    from .. import iosched
+    d = tempfile.mkdtemp(prefix="verif-c19w-", dir=SCRATCH)
+    try:
+        skeleton(d)
+        dd = os.path.join(d, "data")
+        for name, data in initial_files.items():
+            with open(os.path.join(dd, name), "wb") as f:
+                f.write(data)
+        before = set(os.listdir(dd))
+        sched = iosched.Sched(d, 1)
+        sched.write_fault = (k, kind)
+        iosched.install(sched, [70001])
+        results = sched.run([lambda: import_alias(d)], [])
+        r = results[0]
+        cache = os.path.join(dd, CACHE)
+        out = {"writes": sched.writes, "reached": sched.writes > k, "first": r[0] if r else None, "problem": None}
+        if not out["reached"]:
+            return out
+        if r[0] == "ok":
+            if table_of(r[1]) != _REF:
+                out["problem"] = {"stage": "import with the fault", "problem": "timezone table differs from the one the source defines"}
+                return out
+            if kind == "short" or os.path.exists(cache):
+                # a short write is not an error: the import said it succeeded, so the cache must be complete
+                try:
+                    if not os.path.exists(cache):
+                        out["problem"] = {"stage": "after the import with the fault", "problem": "cache file missing"}
+                    elif table_of_pickle(cache) != _REF:
+                        out["problem"] = {"stage": "after the import with the fault", "problem": "cache on disk does not carry the reference table"}
+                except BaseException as e:  # noqa: BLE001
+                    out["problem"] = {"stage": "after the import with the fault", "problem": "import succeeded but left an unreadable cache (%s)" % type(e).__name__}
+                if out["problem"]:
+                    return out
+        elif kind == "short":
+            out["problem"] = {"stage": "import with the fault", "problem": "import raised %s although no write failed" % r[1]}
+            return out
+        # the damage must not persist: a later import without faults succeeds and leaves a complete cache
+        sched.write_fault = None
+        try:
+            m2 = import_alias(d)
+        except BaseException as e:  # noqa: BLE001
+            out["problem"] = {"stage": "next import", "problem": "import raised %s" % type(e).__name__}
+            return out
+        if table_of(m2) != _REF:
+            out["problem"] = {"stage": "next import", "problem": "timezone table differs"}
+            return out
+        try:
+            if table_of_pickle(cache) != _REF:
+                out["problem"] = {"stage": "after the next import", "problem": "cache on disk does not carry the reference table"}
+        except BaseException as e:  # noqa: BLE001
+            out["problem"] = {"stage": "after the next import", "problem": "cache on disk unreadable (%s)" % type(e).__name__}
+        extra = set(os.listdir(dd)) - before - {CACHE}
+        if out["problem"] is None and extra:
+            out["problem"] = {"stage": "after the next import", "problem": "extra files left behind", "files": sorted(extra)}
+        return out
+    finally:
+        shutil.rmtree(d, ignore_errors=True)
+
+
+def _write_fault_task(task):
+    try:
+        name, files, k, kind = task
+        r, w = os.pipe()
+        pid = os.fork()
+        if pid == 0:
+            try:
+                os.close(r)
+                try:
+                    out = _write_fault_child(files, k, kind)
+                except BaseException:  # noqa: BLE001
+                    import traceback
+                    out = {"error": traceback.format_exc()}
+                with os.fdopen(w, "w") as f:
+                    json.dump(out, f)
+            finally:
+                os._exit(0)
+        os.close(w)
+        with os.fdopen(r) as f:
+            data = f.read()
+        os.waitpid(pid, 0)
+        out = json.loads(data) if data else {"error": "no result"}
+        out.update({"initial": name, "k": k, "kind": kind})
+        return out
+    except Exception:  # noqa: BLE001
+        import traceback
+        return {"error": traceback.format_exc()}
+
+
+def write_faults(initials, jobs, ref, max_k=12):
+    """Every write of the recovery, cut short or failing with ENOSPC, one fault per execution."""
+    tasks = [(name, files, k, kind) for name, files in initials for k in range(max_k) for kind in ("short", "enospc")]
+    ctx = mp.get_context("fork")
+    res = {"executions": 0, "faults_reached": 0, "bad": [], "outcomes": {}}
+    with ctx.Pool(jobs, initializer=_init, initargs=(ref,)) as pool:
+        for out in pool.imap_unordered(_write_fault_task, tasks, chunksize=1):
+            if "error" in out:
+                pool.terminate()
+                raise InfraError("write-fault execution failed: %s" % out["error"])
+            res["executions"] += 1
+            if not out["reached"]:
+                continue
+            res["faults_reached"] += 1
+            key = "%s/%s" % (out["kind"], "ok" if out["problem"] is None else out["problem"]["problem"])
+            res["outcomes"][key] = res["outcomes"].get(key, 0) + 1
+            if out["problem"] is not None:
+                res["bad"].append(out)
+    return res
+
+
 def _two_importers_child(initial_files, prefix, nthreads=2):
     """One schedule (runs in a forked child): nthreads real imports on one scratch directory under the I/O scheduler."""
     from .. import iosched
@@ -634,6 +763,17 @@ def replay(rec):
     complete = contents[CACHE]
     label = rec["case"]["label"]
     meta = rec["case"]["meta"]
+    if label == "write-fault":
+        ini = rec["case"]["initial"]
+        files = {"missing": {}, "empty": {CACHE: b""}, "truncated": {CACHE: complete[:len(complete) // 2]}}[ini]
+        out = _write_fault_task((ini, files, rec["case"]["k"], rec["case"]["kind"]))
+        if "error" in out:
+            raise InfraError(out["error"])
+        v = out["problem"]
+        if v is None:
+            return None
+        return {"cls": {"family": meta["family"], "fault": rec["case"]["kind"], "stage": v["stage"], "problem": v["problem"]},
+                "expected": "no lasting damage", "observed": v}
     if label == "two-importers":
         ini = rec["case"]["initial"]
         files = {"missing": {}, "empty": {CACHE: b""}, "truncated": {CACHE: complete[:len(complete) // 2]}}[ini]
